@@ -22,7 +22,7 @@ import lib  # noqa: E402
 sys.path.insert(0, lib.REPO)
 
 FAMILY = {
-    'C05': 'fam_quantity', 'C06': 'fam_quantity', 'C19': 'fam_quantity',
+    'C05': 'fam_quantity', 'C06': 'fam_quantity', 'C19': 'fam_c19',
     'C01': 'fam_solver', 'C02': 'fam_solver', 'C03': 'fam_solver', 'C04': 'fam_solver', 'C11': 'fam_solver', 'C12': 'fam_solver',
     'C13': 'fam_solver', 'C14': 'fam_solver', 'C15': 'fam_solver', 'C16': 'fam_solver',
     'C08': 'fam_motor', 'C10': 'fam_rel', 'C20': 'fam_rel', 'C17': 'fam_keys', 'C09': 'fam_gear', 'C18': 'fam_report', 'C07': 'fam_c07',
@@ -102,7 +102,7 @@ def build_property(pid):
                 os.path.getmtime(os.path.join(lib.COQ, 'Makefile')) < os.path.getmtime(os.path.join(lib.COQ, '_CoqProject')):
             subprocess.run(['coq_makefile', '-f', '_CoqProject', '-o', 'Makefile'], cwd=lib.COQ, check=True, capture_output=True)
         # the correspondence evaluators (models only, no proofs) must be rebuilt against the regenerated description too
-        subprocess.run(['timeout', '1500', 'make', '-k', f'-j{lib.NPROC}', 'QuantityCorr.vo', 'SolverCorr.vo', 'RelCorr.vo'], cwd=lib.COQ, capture_output=True, text=True)
+        subprocess.run(['timeout', '1500', 'make', '-k', f'-j{lib.NPROC}', 'QuantityCorr.vo', 'SolverCorr.vo', 'RelCorr.vo', 'CompCorr.vo'], cwd=lib.COQ, capture_output=True, text=True)
         # dependencies first (parallel), then the property file itself with its output captured
         deps = subprocess.run(['make', '-s', '-f', 'Makefile', '--no-print-directory', target + 'o', '-n'], cwd=lib.COQ, capture_output=True, text=True)
         p = subprocess.run(['timeout', '1500', 'make', '-k', f'-j{lib.NPROC}', target + 'o'], cwd=lib.COQ, capture_output=True, text=True)
